@@ -40,6 +40,17 @@ def run_case(c):
             obj.visit(RecordingVisitor(labels))
             got = [list(e) for e in TRACE if e[0] in ("hook", "child")]
             exp = [list(e) for e in c.trace]
+            if getattr(c, "result_var_may_repeat", False):
+                def nrm(tr):
+                    out2 = []
+                    for e in tr:
+                        if e[0] == "hook" and e[2] not in labels.values():
+                            continue                       # hook of the internal call object (not a part, not the object under contract)
+                        if out2 and e == ["child", "v"] and out2[-1] == e:
+                            continue
+                        out2.append(e)
+                    return out2
+                got, exp = nrm(got), nrm(exp)
             out.append(dict(id="V/" + base, ok=got == exp, expected=exp, actual=got, props=list(c.props), family="V"))
         except OpaqueUse as e:
             out.append(dict(id="V/" + base, ok=False, expected=[list(e2) for e2 in c.trace], actual="opaque part inspected: %s" % e, props=list(c.props), family="V"))
